@@ -10,7 +10,6 @@ From RV Require Import Base.Prelude Base.IdSet Base.IdSetProofs M.ConfChange
   M.ConfChangeSpec M.ConfChangeOps.
 
 Local Open Scope N_scope.
-Set Default Timeout 60.
 
 Definition count_in (q v : list N) : nat := length (filter (fun x => mem x q) v).
 
